@@ -179,6 +179,8 @@ class BaseProperty(base.BaseObject):
                              "array of length %i" % (int(key), self.__len__()))
         try:
             val = dtypes.get(item, self.dtype)
+            if val is None:
+                raise ValueError("empty value")
             self._values[int(key)] = val
         except Exception:
             raise ValueError("odml.Property.__setitem__:  passed value cannot be "
@@ -345,7 +347,10 @@ class BaseProperty(base.BaseObject):
         """
         for val in values:
             try:
-                dtypes.get(val, self.dtype)
+                # An empty odml style tuple is converted to None,
+                # which is not a value that can be stored.
+                if dtypes.get(val, self.dtype) is None:
+                    return False
             except Exception:
                 return False
         return True
